@@ -1,4 +1,5 @@
 import GstVerif.Grid.Driver
+import GstVerif.Poly.Driver
 /-
   gstmodel: line-protocol driver.  One request per input line:
       <model> <op> <args…> => <implementation's answer…>
@@ -15,6 +16,7 @@ def dispatch (line : String) : String :=
   let (req, impl) := splitArrow (tokens line)
   match req with
   | "g" :: args => Grid.handle args impl
+  | "p" :: args => Poly.handle args impl
   | _ => "bad-op"
 
 partial def loop (h : IO.FS.Stream) (out : IO.FS.Stream) : IO Unit := do
